@@ -72,6 +72,13 @@ NearCases == {[kind |-> "near", path |-> x.path, q |-> x.q, d2 |-> Dist2PointSeg
                 x \in {NearSeg(n, k, j, sw, rv) : n \in {30, 1000}, k \in {2, 10}, j \in {0, 1}, sw \in BOOLEAN, rv \in BOOLEAN}}
 BufferCases == [kind : {"buffer"}, c : {<<0, 0>>, <<3, -2>>}, r : {1, 2, 5}, n : {3, 4, 5, 8, 64}]
 
-GenInit == c \in AreaCases \cup LineCases \cup NearCases \cup BufferCases /\ PrintT(ToJson(c))
+(* the same shapes and paths far from the coordinate origin: the case carries the translation (never computed with in
+   TLC); area, length and distance do not change under it and the centroid moves with it - the harness translates the
+   coordinates and reports the centroid relative to the translation.  At these magnitudes the lattice areas are still
+   exact in binary floating point (products of a coordinate sum and a coordinate difference stay below 2^53). *)
+Offs == {<<100000001, 100000001>>, <<-300000000, 200000000>>, <<1000000, -70000000>>}
+FarShapes == UNION {{[kind |-> "shape", base |-> sh, spelled |-> sp, off |-> o] : sp \in {x \in SpelledOf(sh) : TRUE}, o \in Offs} : sh \in BaseShapes}
+FarLines == {[kind |-> "line", path |-> p, q |-> q, off |-> o] : p \in LongPaths, q \in {<<10, 10>>, <<13, 16>>, <<30, 5>>}, o \in Offs}
+GenInit == c \in AreaCases \cup LineCases \cup NearCases \cup BufferCases \cup FarShapes \cup FarLines /\ PrintT(ToJson(c))
 GenSpec == GenInit /\ [][UNCHANGED c]_c
 =============================================================================
